@@ -121,7 +121,15 @@ def _eval_single(cases):
         regular = True
         if op in LOC_OPS:
             Bc = _bc(case, A.dtype)
-            got = np.asarray(getattr(mh, op)(Al, Bc))
+            if case.get('_hist'):
+                # the result is asked for in a caller's buffer that already holds marks (all True: a buffer reused from an
+                # earlier image): the extrema are what the definition says, not the union with what was there
+                buf = np.ones(Al.shape, bool)
+                got = np.asarray(getattr(mh, op)(Al, Bc, out=buf))
+                if got is not buf:
+                    f.append(dict(kind='property', key=f'{op}:out-not-returned', detail={}))
+            else:
+                got = np.asarray(getattr(mh, op)(Al, Bc))
             g = [int(x) for x in got.ravel(order='C').tolist()]
             regular = drv['regular'] == '1'     # the proved-sound checkers starShapedB && symNbB of the Lean model
             if regular != _symmetric_star(case):
